@@ -317,6 +317,7 @@ Definition VE_TOOMANYUNSIGNED : N := 10.
 Definition SE_UNSIGNED : N := 100.     (* ServerError::unsigned(code) is Err (100 + code) *)
 
 Definition P_SIGSLICE : N := 21.
+Definition P_EXPECT_TSIG : N := 22.
 
 Section WithMac.
   Variable mac : alg -> bytes -> bytes -> bytes.
@@ -397,6 +398,20 @@ Section WithMac.
               end
         end
     end.
+
+  (* ServerError::build_message, Unsigned arm, reduced to what decides the shape
+     of the response: the RCODE, or the panic of
+     MessageTsig::from_message(msg).expect("missing or malformed TSIG record")
+     when the record that made the request fail cannot be found again.
+     T1 formerr_plain_response: FORMERR is answered before looking. *)
+  Definition unsigned_error_rcode (req : bytes) (code : N) : outcome N :=
+    if formerr_plain_response && (code =? RC_FORMERR) then Ok RC_FORMERR
+    else match from_message req with
+         | Ok _ => Ok RC_NOTAUTH
+         | Err _ => Panic P_EXPECT_TSIG
+         | Panic s => Panic s
+         | OutOfFuel => OutOfFuel
+         end.
 
   (* ServerTransaction::answer_with_fudge (final_answer), also the Signed arm
      of ServerError::build_message with the BADTIME variables *)
